@@ -118,6 +118,7 @@ func runC04(t *testing.T, seed uint64, m *Mask) *Report {
 		e.AllowUnknownArgs = true
 		byTag := map[string]*c04Case{}
 		for _, c := range cases {
+			c.op.MetaV = c.op.MetaV + "#" + c.op.Tag // unique per op, visible to plugins on both sides
 			if !m.opDropped(c.op.Idx) {
 				e.OpByTag[c.op.Tag] = c.op
 				byTag[c.op.Tag] = c
@@ -126,7 +127,7 @@ func runC04(t *testing.T, seed uint64, m *Mask) *Report {
 		// veto plugins: the server one keys on the Mk metadata value (unique per op), the client one on the tag in the output body
 		vetoFor := func(stage string, metaV string) *erpc.Status {
 			for _, c := range cases {
-				if c.outcome == "veto" && c.vetoAt == stage && c.op.MetaV == metaV {
+				if c.outcome == "veto" && c.vetoAt == stage && metaV != "" && c.op.MetaV == metaV {
 					return erpc.NewStatus(c.vetoCode, "vetoed at "+stage, "veto cause "+c.op.Tag)
 				}
 			}
@@ -161,7 +162,6 @@ func runC04(t *testing.T, seed uint64, m *Mask) *Report {
 		}
 		run := func(c *c04Case) {
 			op := c.op
-			op.MetaV = op.MetaV + "#" + op.Tag // unique per op, visible to plugins on both sides
 			switch c.outcome {
 			case "badbody":
 				// send bytes that cannot be decoded into the handler's argument type
